@@ -66,6 +66,8 @@ type shared18 struct {
 	paths  []string
 	mdPath *mdicons.Path
 	circ   []mdicons.Circle
+	// opts is a shared, read-only option table with spare capacity; tasks pass prefix views of it
+	opts []decode.DecodeOption
 }
 
 func hashOps18(ops []rec.Op) [32]byte {
@@ -114,7 +116,11 @@ func task18(kind int, in int, sh *shared18, variant uint64) [32]byte {
 		return sha256.Sum256([]byte(fmt.Sprint(vb, err)))
 	case 5:
 		d := &rec.Dest{}
-		decode.Decode(d, b, decode.WithPalette(*sh.pal), decode.WithColorAt(int(variant%64), sh.pal[3]), decode.WithColorAt(1, color.NRGBA{1, 2, 3, uint8(variant)}))
+		if variant%2 == 0 {
+			decode.Decode(d, b, sh.opts[:1+int(variant/2)%len(sh.opts)]...)
+		} else {
+			decode.Decode(d, b, decode.WithPalette(*sh.pal), decode.WithColorAt(int(variant%64), sh.pal[3]), decode.WithColorAt(1, color.NRGBA{1, 2, 3, uint8(variant)}))
+		}
 		return hashOps18(d.Ops)
 	case 6:
 		var e encode.Encoder
@@ -247,6 +253,8 @@ func c18Round(c *run.Ctx, idx uint64) {
 	op := float32(0.54)
 	sh.mdPath = &mdicons.Path{D: md, Opacity: &op}
 	sh.circ = []mdicons.Circle{{Cx: 12, Cy: 12, R: 3}}
+	sh.opts = make([]decode.DecodeOption, 0, 8)
+	sh.opts = append(sh.opts, decode.WithColorAt(2, color.RGBA{9, 8, 7, 0xff}), decode.WithColorAt(3, color.NRGBA{200, 100, 50, 0x80}), decode.WithPalette(pal), decode.WithColorAt(0, color.Gray{0x33}))
 
 	G := r.Pick(2, 4, 16, 64)
 	procs := r.Pick(2, 4, 16)
